@@ -52,10 +52,10 @@ Theorem convert_module_fields y ctx is_binary filename (D : module) m :
     m_build_dep_files m = m_build_dep_files D.
 Proof.
   unfold convert_module. intros H.
-  inv H. inv H. inv H.
+  inv H. inv H. inv H. inv H.
   repeat (inv H).
   inversion H; subst; clear H. cbn.
-  exists a, a0, a1. repeat split; reflexivity.
+  exists a0, a1, a2. repeat split; reflexivity.
 Qed.
 
 (* a module with a list of contexts is converted once per context, in order *)
